@@ -13,6 +13,9 @@ type Plan struct {
 	Family string `json:"family"`
 	// Judge lists the oracles (property ids) that give verdicts on this run.
 	Judge []string `json:"judge"`
+	// NoJudge lists oracles whose precondition this plan violates by construction; they give no
+	// verdict on it even when a check overrides Judge.
+	NoJudge []string `json:"no_judge,omitempty"`
 
 	H      Dur    `json:"h"`   // heartbeat interval (all instances)
 	TTL    Dur    `json:"ttl"` // election TTL == bucket MaxAge
@@ -177,6 +180,11 @@ func PlanFromJSON(b []byte) (*Plan, error) {
 }
 
 func (p *Plan) judges(id string) bool {
+	for _, j := range p.NoJudge {
+		if j == id {
+			return false
+		}
+	}
 	for _, j := range p.Judge {
 		if j == id {
 			return true
